@@ -2,7 +2,7 @@
 Theorems on F3.Validator (partially / fully / complete / strip / validate); h_validate runs both production paths on
 the same inputs with completion performed by pmsg's own statements (inferJustificationVoteValue via accessor)."""
 
-NONTRIVIAL = r"^(t|s) "
+NONTRIVIAL = r"^(t|s|h) "
 
 
 def search(ctx):
@@ -18,7 +18,7 @@ def search(ctx):
 
 def run(ctx):
     ctx.prove()
-    worlds = "1000" if ctx.tier == "thorough" else "60"
+    worlds = "800" if ctx.tier == "thorough" else "40"
     ctx.correspond("h_validate", "Validate", nontrivial=NONTRIVIAL,
                    env={"VERIF_VALIDATE_MODE": "c13", "VERIF_VALIDATE_WORLDS": worlds})
     return ctx.finish(
@@ -26,14 +26,18 @@ def run(ctx):
              "zero / junk; placeholder values as stripped or tampered), completion with a chain (matching or not) by the "
              "production statements, FullyValidateMessage, and ValidateMessage of the completed message, on a warm participant "
              "sharing one cache between the paths and on fresh participants; s = ToPartialGMessage + completion of a full "
-             "message compared field by field with the original. The driver replays F3.Validator.partially / complete / fully / "
+             "message compared field by field with the original; h = the host flow of validatePubsubMessage with the REAL "
+             "PartialMessageManager.CompleteMessage over a real (unstarted) chain exchange that has or has not seen the chain: "
+             "completed => ValidateMessage, else PartiallyValidateMessage; plus the same message through partial + completion + "
+             "full when the chain is discovered afterwards (oracle: both arrival orders give the same verdict). The driver replays F3.Validator.partially / complete / fully / "
              "validate / strip and evaluates: two-stage accept => key X = K and one-shot accept; one-shot accept and key match "
              "and well-formed placeholders and relevant at stage one => two-stage accept; equal verdict class at equal "
              "progress; round trip for valid messages. distinct_nontrivial = distinct t/s lines.",
         trusted_base=[
             "as C05 (symbolic cryptography, chain key = chain, cache key pre-images)",
-            "completion is exercised through the two statements PartialMessageManager executes (Vote.Value = chain; "
-            "inferJustificationVoteValue) via a verif-tagged accessor, not through the pubsub/chainexchange event loop",
+            "completion in the discovered-chain path is exercised through the two statements PartialMessageManager's loop "
+            "executes (Vote.Value = chain; inferJustificationVoteValue) via a verif-tagged accessor; CompleteMessage itself is "
+            "the real method over a real chain exchange fed synchronously (no pubsub traffic, loops not started)",
         ],
         assumptions=["uint64 fields are < 2^64"],
         search=search,
